@@ -274,3 +274,120 @@ def run(ctx):
     ctx.check('C07.O3', oke, ldf.name, 'empty-depfile:trusted', ldf.loc,
               'LoadDepFile answers "no usable depfile" (nullopt, edge dirty) for an empty depfile')
     ctx.floor('C07.O3', 8)
+    check_signal_table(ctx)
+
+
+INTERRUPT_SIGNALS = {2: 'SIGINT', 15: 'SIGTERM', 1: 'SIGHUP'}        # the three the statement names (Linux numbering)
+SIGCHLD_NO = 17
+
+
+def check_signal_table(ctx):
+    """C07.S1: the places that enumerate 'the interrupt signals' agree with each other and with the statement."""
+    prog = ctx.prog
+    ctx.rule('C07.S1', 'TA', 'SIGINT, SIGTERM and SIGHUP are, each of them: blocked outside ppoll/pselect, given the handler that '
+             'sets the interrupted flag, looked for among the pending signals after a poll that reported descriptors, '
+             'given their old disposition back at the end, and recognised in a child\'s wait status as "interrupted"; the five '
+             'tables agree; the pending check stores the signal it found')
+    ctor = prog.fn('SubprocessSet::SubprocessSet')
+    dtor = prog.fn('SubprocessSet::~SubprocessSet')
+    hpi = prog.fn('SubprocessSet::HandlePendingInterruption')
+    pes = prog.fn('ParseExitStatus')
+
+    def consts(f, callee, argi):
+        out = {}
+        for e in f.calls(callee):
+            v = const_value((e.get('args') or [None] * (argi + 1))[argi])
+            if isinstance(v, int):
+                out[v] = e
+        return out
+    blocked = consts(ctor, 'sigaddset', 1)
+    # handler installed per sigaction(SIG, &act, ..): the latest dominating store to the handler member
+    hstores = [e for e in ctor.events('asg') if ('sa_handler' in dstr(e['l']) or 'sa_sigaction' in dstr(e['l']))]
+    installed = {}
+    for e in ctor.calls('sigaction'):
+        sig = const_value(e['args'][0])
+        doms = [h for h in hstores if ctor.dominates_ev(h, e)]
+        last = [h for h in doms if not any(h is not g and ctor.dominates_ev(h, g) for g in doms)]
+        r = strip(last[0].get('r')) if last else None
+        name = None
+        for x in walk(r):
+            if isinstance(x, dict) and x.get('k') == 'fn':
+                name = x['n']
+        if isinstance(sig, int):
+            installed[sig] = (name, e)
+    flag_setters = set()
+    for f in prog.functions.values():
+        if f.cls == 'SubprocessSet' and not any(True for _ in f.events('call')):
+            for e in f.events('asg'):
+                if is_field_name(e['l'], 'SubprocessSet::interrupted_') and f.params:
+                    flag_setters.add(f.id)
+                    flag_setters.add(f.name)
+    handled = {s for s, (h, e) in installed.items() if h and (h in flag_setters or h.split('(')[0] in flag_setters)}
+    pending = consts(hpi, 'sigismember', 1)
+    restored = {s for s in consts(dtor, 'sigaction', 0)}
+    exitsig = {}
+    for bid, b in pes.blocks.items():
+        for i, s in enumerate(b['succ']):
+            for key, pol, atom in pes.edge_facts(bid, i, all=True):
+                a = strip(atom)
+                if pol and isinstance(a, dict) and a.get('k') == 'bin' and a['op'] == '==' and isinstance(const_value(a['r']), int) \
+                        and const_value(a['r']) != 0 and '& 127' in dstr(a['l']) and s is not None:
+                    exitsig[const_value(a['r'])] = (bid, i, s)
+    tables = {'blocked (sigaddset)': set(blocked) - {SIGCHLD_NO}, 'handler sets the flag (sigaction)': handled,
+              'pending check (sigismember)': set(pending), 'restored (sigaction in the destructor)': restored - {SIGCHLD_NO},
+              'child status -> interrupted': set(exitsig)}
+    ctx.table('C07.S1.tables', {k: sorted(INTERRUPT_SIGNALS.get(s, s) for s in v) for k, v in tables.items()})
+    for k, v in tables.items():
+        if not v:
+            raise AnalysisBroken('C07.S1: no signal constant found for "%s" (idiom not recognised)' % k)
+    want = set(INTERRUPT_SIGNALS)
+    for k, v in tables.items():
+        for s in sorted(want):
+            ctx.check('C07.S1', s in v, 'SubprocessSet', 'signal-table:%s:%s' % (k.split(' (')[0], INTERRUPT_SIGNALS[s]), ctor.loc,
+                      '%s is in the table "%s"' % (INTERRUPT_SIGNALS[s], k))
+        extra = v - want
+        ctx.check('C07.S1', not extra, 'SubprocessSet', 'signal-table:%s:extra' % k.split(' (')[0], ctor.loc,
+                  'the table "%s" names no other signal (%s)' % (k, sorted(extra)))
+    # SIGCHLD: blocked, own handler (not the interrupt one), restored
+    ctx.check('C07.S1', SIGCHLD_NO in blocked and SIGCHLD_NO in installed and SIGCHLD_NO not in handled and SIGCHLD_NO in restored,
+              ctor.name, 'signal-table:SIGCHLD', ctor.loc, 'SIGCHLD is blocked, has its own handler and is restored')
+    # the pending check stores what it found
+    for s, e in sorted(pending.items()):
+        ts = true_succ(hpi, e['_b'])
+        ok = False
+        if ts is not None:
+            st = [x for x in hpi.blocks[ts]['ev'] if x['k'] == 'asg' and is_field_name(x['l'], 'SubprocessSet::interrupted_')]
+            ok = len(st) == 1 and const_value(st[0].get('r')) == s
+        ctx.check('C07.S1', ok, hpi.name, 'pending:%s:stored-as-other' % INTERRUPT_SIGNALS.get(s, s), hpi.where(e),
+                  'a pending %s is recorded as interrupted_ = %s' % (INTERRUPT_SIGNALS.get(s, s), s))
+    # in the wait status each of the three leads to ExitInterrupted and nothing else does
+    for s, (bid, i, succ) in sorted(exitsig.items()):
+        r = pes.find_path(None, lambda x: x['k'] == 'ret' and not mentions_enum(x.get('e'), 'ExitInterrupted'), from_succ=succ)
+        ctx.check('C07.S1', r is None, pes.name, 'wait-status:%s:not-interrupted' % INTERRUPT_SIGNALS.get(s, s), pes.loc,
+                  'a child killed by %s is reported as ExitInterrupted' % INTERRUPT_SIGNALS.get(s, s))
+    # the handler stores its argument (the signal number) - Clear() forwards interrupted_ to the children
+    for hname in sorted({h for s, (h, e) in installed.items() if s in want and h}):
+        hf = prog.functions.get(hname) or prog.fn(hname.split('(')[0])
+        st = [x for x in hf.events('asg') if is_field_name(x['l'], 'SubprocessSet::interrupted_')]
+        ok = len(st) == 1 and isinstance(strip(st[0].get('r')), dict) and strip(st[0]['r']).get('k') == 'var'
+        ctx.check('C07.S1', ok, hf.name, 'handler:does-not-store-signal', hf.loc, 'the interrupt handler stores the signal number it was given')
+    # the flag is cleared only right before waiting (DoWork), never between a poll and the test of the flag
+    allowed = {'SubprocessSet::DoWork': 'cleared before each wait', 'SubprocessSet::HandlePendingInterruption': 'pending signal found',
+               'SubprocessSet::SetInterruptedFlag': 'handler'}
+    who_may_write(ctx, 'C07.S1', 'SubprocessSet::interrupted_', allowed, 'interrupted flag')
+    for f in prog.fns('SubprocessSet::DoWork'):
+        zero = [e for e in f.events('asg') if is_field_name(e['l'], 'SubprocessSet::interrupted_') and const_value(e.get('r')) == 0]
+        waits = [e for e in f.events('call') if e.get('name') in ('ppoll', 'pselect')]
+        ctx.check('C07.S1', len(zero) == 1 and len(waits) == 1 and f.dominates_ev(zero[0], waits[0]), f.name, 'DoWork:flag-cleared-after-wait', f.loc,
+                  'interrupted_ is cleared once, before the wait')
+        for w in waits:
+            # the mask given to the wait is the one saved when the signals were blocked
+            ctx.check('C07.S1', any(mentions_field(a, 'SubprocessSet::old_mask_') for a in w.get('args') or []), f.name, 'DoWork:wait-mask', f.where(w),
+                      'the wait runs with the signal mask saved by the constructor (signals are deliverable only there)')
+    ctx.floor('C07.S1', 30)
+
+
+def is_field_name(d, name):
+    d = strip(d)
+    return isinstance(d, dict) and d.get('k') in ('mem', 'var', 'glob') and (d.get('n') == name or d.get('n', '').endswith(name.split('::')[-1]) and
+                                                                         name.split('::')[-1] in d.get('n', ''))
